@@ -171,18 +171,6 @@ func c01Run(c *engine.Ctx) {
 	}
 	c.Sample(map[string]any{"corpus_queries": len(SimpleCorpus())})
 
-	// focused grammars
-	sz := map[string]int{"F1": 5, "F2": 5, "F3": 5, "F4": 4, "F5": 4, "full": 3}
-	if !quick {
-		sz = map[string]int{"F1": 6, "F2": 6, "F3": 6, "F4": 5, "F5": 5, "full": 4}
-	}
-	runGrammarVsModel(c, GrammarF5(), sz["F5"], []any{nil, univ.J(`[1,[2]]`), univ.J(`[[1,2],3]`), univ.J(`{"a":1,"b":[2]}`), univ.J(`[[1],2,[3]]`), univ.J(`[{"b":[1]},[2],{"b":[3]}]`)}, nil)
-	runGrammarVsModel(c, GrammarF1(), sz["F1"], inputs, nil)
-	runGrammarVsModel(c, GrammarF2(), sz["F2"], inputs, nil)
-	runGrammarVsModel(c, GrammarF3(), sz["F3"], inputs[:8], nil)
-	runGrammarVsModel(c, GrammarF4(), sz["F4"], inputs[:8], nil)
-	runGrammarVsModel(c, GrammarFull(), sz["full"], inputs, nil)
-
 	// recursion whose self call stands below a binding with a generator in between: the outer frame is read again
 	// after the inner call has returned (the family of C04, here against the reference interpreter)
 	c.Sub("recursion-frames")
@@ -262,6 +250,27 @@ func c01Run(c *engine.Ctx) {
 		stackBFS(c, d, false)
 		stackBFS(c, d, true)
 	}
+
+	// focused grammars: the quick bounds first, completely; the thorough tier then goes on with the larger bounds for as
+	// long as its wall-clock guard allows (so a thorough run always covers what a quick run covers)
+	f5in := []any{nil, univ.J(`[1,[2]]`), univ.J(`[[1,2],3]`), univ.J(`{"a":1,"b":[2]}`), univ.J(`[[1],2,[3]]`), univ.J(`[{"b":[1]},[2],{"b":[3]}]`)}
+	grammars := func(sz map[string]int) {
+		for i, g := range []struct {
+			g  *gen.Grammar
+			n  string
+			in []any
+		}{{GrammarF5(), "F5", f5in}, {GrammarF1(), "F1", inputs}, {GrammarF2(), "F2", inputs}, {GrammarF3(), "F3", inputs[:8]}, {GrammarF4(), "F4", inputs[:8]}, {GrammarFull(), "full", inputs}} {
+			if !quick {
+				c.Slice(6 - i) // each grammar gets its share of what is left
+			}
+			runGrammarVsModel(c, g.g, sz[g.n], g.in, nil)
+			c.EndSlice()
+		}
+	}
+	grammars(map[string]int{"F1": 5, "F2": 5, "F3": 5, "F4": 4, "F5": 4, "full": 3})
+	if !quick {
+		grammars(map[string]int{"F1": 6, "F2": 6, "F3": 6, "F4": 5, "F5": 5, "full": 4})
+	}
 }
 
 func usesCLIOnly(q string) bool {
@@ -287,6 +296,6 @@ func init() {
 		Run:            c01Run,
 		Replay:         c01Replay,
 		QuickBudget:    150 * time.Second,
-		ThoroughBudget: 15 * time.Minute,
+		ThoroughBudget: 8 * time.Minute,
 	})
 }
